@@ -8,7 +8,8 @@
 (* renders").                                                              *)
 (*                                                                         *)
 (* An invocation is a record                                               *)
-(*   [bin, version, set, mset, setkeys, precision, f, o, p, t, gdd, yaml,  *)
+(*   [bin, version, set, mset, setkeys, precision, f, o, obad, p, t, gdd,   *)
+(*    yaml,                                                                *)
 (*    color, nargs, stdin, in1, in2, pair]                                 *)
 (* (in2 = "mismatch": in patch mode the target is not the document the      *)
 (* diff was made for, so the library must return an error)                  *)
@@ -100,6 +101,7 @@ ExitOf(i, liberr, libdiff) ==
   LET o == Outcome(i) IN
   IF o.kind # "lib" THEN o.exit
   ELSE IF liberr THEN 2
+  ELSE IF i.o /\ i.obad THEN 2               \* the result cannot be written where -o says: an error like any other
   ELSE IF ModeOf(i) = "diff" THEN (IF libdiff THEN 1 ELSE 0)
   ELSE 0
 
@@ -110,7 +112,7 @@ ExitRange == phase = "done" => result.exit \in {0, 1, 2}
 (* ---- the invocation matrix ------------------------------------------------------- *)
 Bins == {"v2", "top", "topv1"}
 Base == [bin |-> "v2", version |-> FALSE, set |-> FALSE, mset |-> FALSE, setkeys |-> "", precision |-> 0, f |-> "",
-         o |-> FALSE, p |-> FALSE, t |-> "", gdd |-> FALSE, yaml |-> FALSE, color |-> FALSE, nargs |-> 2, stdin |-> FALSE,
+         o |-> FALSE, obad |-> FALSE, p |-> FALSE, t |-> "", gdd |-> FALSE, yaml |-> FALSE, color |-> FALSE, nargs |-> 2, stdin |-> FALSE,
          in1 |-> "ok", in2 |-> "ok", pair |-> 1]
 
 (* valid diff / patch-round-trip invocations: array reading x format x yaml x color x -o x stdin x binary x pair *)
@@ -140,6 +142,8 @@ ErrorInvocations ==
         b \in Bins, x \in {"ok", "invalid", "missing"}, y \in {"ok", "invalid", "missing"}, yy \in BOOLEAN, p \in BOOLEAN,
         f \in {"", "patch", "merge"} } \cup
   { [Base EXCEPT !.bin = b, !.p = TRUE, !.in2 = "mismatch", !.f = f, !.pair = pr] : b \in Bins, f \in {"", "patch"}, pr \in {2, 6} } \cup
+  { [Base EXCEPT !.bin = b, !.o = TRUE, !.obad = TRUE, !.p = p, !.f = f, !.pair = pr] : b \in Bins, p \in BOOLEAN, f \in {"", "merge"}, pr \in {1, 2} } \cup
+  { [Base EXCEPT !.bin = b, !.o = TRUE, !.obad = TRUE, !.t = t, !.nargs = 1, !.pair = 2] : b \in Bins, t \in {"jd2patch", "json2yaml"} } \cup
   { [Base EXCEPT !.bin = b, !.version = TRUE, !.nargs = n] : b \in Bins, n \in {0, 2} } \cup
   { [Base EXCEPT !.bin = b, !.gdd = TRUE, !.nargs = n, !.in1 = x] : b \in Bins, n \in {2, 7}, x \in {"ok", "invalid", "missing"} }
 
